@@ -164,6 +164,80 @@ pub fn data(kind: &str, n: usize, r: &mut StdRng) -> Vec<u8> {
             pool.swap(i, j);
         }
         v = pool;
+    } else if kind == "deep15" {
+        // Per segment of 24..31 K: ~160 common byte values, a Fibonacci ladder of seven rarer
+        // values and 8..24 values that occur once.  An unrestricted Huffman code would give the
+        // once-only values 16-17 bits, so the length limiter puts them at the maximum of 15;
+        // they are laid next to each other in clusters so that runs of maximum-length literal
+        // codes go through the bit accumulator of the block writer back to back.
+        while v.len() < n {
+            let seg = r.gen_range(24_000..31_000usize).min(n - v.len());
+            let base: u8 = r.gen();
+            let start = v.len();
+            for _ in 0..seg {
+                v.push(base.wrapping_add(r.gen_range(0..160)));
+            }
+            if seg < 4000 { continue; }
+            let mut cnt = [8usize, 13, 21, 34, 55, 89, 144];
+            if r.gen_range(0..2) == 0 { cnt = [5, 8, 13, 21, 34, 55, 89]; }
+            for (k, c) in cnt.iter().enumerate() {
+                let val = base.wrapping_add(160 + k as u8);
+                for _ in 0..*c {
+                    let at = start + r.gen_range(0..seg);
+                    v[at] = val;
+                }
+            }
+            let nrare = r.gen_range(8..=24usize);
+            let mut k = 0usize;
+            while k < nrare {
+                let cl = r.gen_range(4..=8usize).min(nrare - k).max(1);
+                let at = start + r.gen_range(0..seg - 16);
+                for j in 0..cl {
+                    v[at + j] = base.wrapping_add(170 + (k + j) as u8);
+                }
+                k += cl;
+            }
+        }
+    } else if kind == "deepdist" {
+        // random bytes with planted 4-byte copies whose distance symbols follow the Fibonacci
+        // sequence (16..24 distinct distance symbols): the distance code has to be length-limited
+        // too, so matches made of maximum-length code words reach the block writer
+        let head = 33_000usize.min(n);
+        for _ in 0..head {
+            v.push(r.gen());
+        }
+        const DBASE: [usize; 30] = [1, 2, 3, 4, 5, 7, 9, 13, 17, 25, 33, 49, 65, 97, 129, 193, 257, 385, 513, 769,
+                                    1025, 1537, 2049, 3073, 4097, 6145, 8193, 12289, 16385, 24577];
+        let nsym = r.gen_range(16..=24usize);
+        let first = r.gen_range(4..=(30 - nsym));
+        let mut plan: Vec<usize> = Vec::new();
+        let (mut a, mut b) = (1usize, 1usize);
+        for k in 0..nsym {
+            for _ in 0..a { plan.push(first + k); }
+            let c = a + b; a = b; b = c;
+            if plan.len() > 6000 { break; }
+        }
+        for i in (1..plan.len()).rev() {
+            let j = r.gen_range(0..=i);
+            plan.swap(i, j);
+        }
+        for sym in plan {
+            if v.len() + 12 > n { break; }
+            for _ in 0..r.gen_range(3..7) {
+                v.push(r.gen());
+            }
+            let lo = DBASE[sym];
+            let hi = if sym == 29 { 32768 } else { DBASE[sym + 1] - 1 };
+            let d = r.gen_range(lo..=hi).min(v.len());
+            let len = r.gen_range(4..=5);
+            for _ in 0..len {
+                let x = v[v.len() - d];
+                v.push(x);
+            }
+        }
+        while v.len() < n {
+            v.push(r.gen());
+        }
     } else if kind == "litmatch" {
         // mostly literals with plenty of short, overlapping repeats at varying distances: the lazy
         // matcher frequently has a deferred match pending, and the LZ code buffer fills up
